@@ -287,6 +287,7 @@ func runC11(w *fw.Worker) {
 		setPct := r.Range(20, 80)
 		var probeLeaf *gen.LeafRef
 		probeClass := ""
+		unquotedMap := false
 		for _, lr := range leaves {
 			lf := lr.Leaf().Leaf
 			if lf.Caps&gen.CapEnv == 0 || lf.Text == nil {
@@ -303,6 +304,14 @@ func runC11(w *fw.Worker) {
 				}
 			}
 			v := gen.GenLeafValue(r, c, lf)
+			if lf.Type == reflect.TypeOf(map[string]string{}) && !unquotedMap && r.Chance(8) {
+				// unquoted key and value, the value with blanks inside: the source may refuse such text (the README asks
+				// for quotes around anything but alphanumeric values), but it may not silently set a truncated value
+				unquotedMap = true
+				layer.Vals[lr] = reflect.ValueOf(map[string]string{"zone": "alpha beta 7"})
+				texts[envName(prefix, lr)] = "zone:alpha beta 7"
+				continue
+			}
 			layer.Vals[lr] = v
 			texts[envName(prefix, lr)] = lf.Text(v)
 			if alt, ok := c11AltIntText(r, lf, v); ok && r.Chance(20) {
@@ -350,9 +359,16 @@ func runC11(w *fw.Worker) {
 			w.SetAdd("bad_literal_classes", probeClass)
 			return
 		}
+		if err != nil && unquotedMap {
+			w.Count("unquoted_map_text_refused", 1)
+			return
+		}
 		if err != nil {
 			w.Violation(i, "value-error-on-well-formed-environment", err.Error(), witness())
 			return
+		}
+		if unquotedMap {
+			w.Count("unquoted_map_text_accepted_and_compared", 1)
 		}
 		res, cerr := dials.VerifCompose(zero.Interface(), []reflect.Value{got})
 		if cerr != nil {
